@@ -45,7 +45,7 @@ var c05Fields = []c05Field{
 		func(p string) string { return "resources:\n- inside.yaml\nconfigurations:\n- " + p + "\n" }},
 	{"crds", func(m string) string { return "{\"" + m + "\": " },
 		func(p string) string { return "resources:\n- inside.yaml\ncrds:\n- " + p + "\n" }},
-	{"openapi.path", func(m string) string { return "{\"definitions\": {\"" + m + "\": 1}}" },
+	{"openapi.path", func(m string) string { return "{\"definitions\": {\"" + m + "\": {\"type\": \"object\"}}}" },
 		func(p string) string {
 			return "resources:\n- inside.yaml\nopenapi:\n  path: " + p + "\npatches:\n- patch: |\n    apiVersion: v1\n    kind: ConfigMap\n    metadata:\n      name: inside\n      annotations: {x: y}\n"
 		}},
